@@ -20,10 +20,14 @@ Definition actor (a : acct) : Prop := a <> FARM /\ a <> COLL /\ a <> FEEC /\ a <
 
 Definition sender (m : msg) : acct :=
   match m with
-  | CreatePool w _ _ _ _ | Stake w _ _ _ | Unstake w _ _ _ | Harvest w _ | Adjust w _ _ _ | Destroy w _ => w
+  | CreatePool w _ _ _ _ | Stake w _ _ _ | Unstake w _ _ _ | Harvest w _ | Adjust w _ _ _ | Destroy w _ | UpdateParams w _ _ => w
   end.
 
 Definition valid_step (st : step) : Prop := match st with Msg m => actor (sender m) | NextBlock => True end.
+
+(** the sender is one of the accounts the harness observes (a parameter change moves no coins: any sender) *)
+Definition actor_step (st : step) : Prop :=
+  match st with Msg (UpdateParams _ _ _) => True | Msg m => In (sender m) actors | NextBlock => True end.
 
 (** ** what the reward collector owes, scaled by 10^18 *)
 Fixpoint owed_list (rs : list rule) (locked : Z) (debts : list Z) : list (denom * Z) :=
